@@ -101,7 +101,7 @@ def required_counters(tier):
         "law.nested": 500,
         "law.bare": 500,
         "bindings_compared": 1000,
-        "L.pep604": 50, "L.arrnode": 100, "L.ntclass": 100, "structure_name_bound_earlier": 100, "annotation_built_while_checking_disabled": 100, "hostile_values": 16, "identity_cases": 16, "shards_under_python_O": 2, "cases_under_python_O": 1000,
+        "L.pep604": 50, "L.arrnode": 100, "L.ntclass": 100, "structure_name_bound_earlier": 100, "annotation_built_while_checking_disabled": 100, "hostile_values": 16, "identity_cases": 16, "shards_under_python_O": 2, "near_recursion_limit.checks": 300, "near_recursion_limit.died_with_RecursionError": 20, "cases_under_python_O": 1000,
     }
 
 
@@ -367,6 +367,10 @@ def run_shard(rec, seed, shard, tier):
         real.hostile_prelude(rec)  # a past: nothing the check decides may depend on it
         real.toplevel_probes(rec, None, "after the hostile prelude")
     GT.ensure_registered()
+    if shard["i"] == 5:
+        from .depth_common import arm_checks_near_recursion_limit
+
+        arm_checks_near_recursion_limit(rec, ["pytree/"])
     run_identity(rec, random.Random(f"{seed}/C08/{shard['i']}/identity"))
     if shard.get("python_flags"):
         rec.count("shards_under_python_O")
